@@ -107,7 +107,8 @@ def resolve_rec(prog, spec):
 
 
 class Entry:
-    def __init__(self, rec, field, lo, hi, why, spec=None, filler=None, init_written=False):
+    def __init__(self, rec, field, lo, hi, why, spec=None, filler=None, init_written=False, table=None):
+        self.table = table              # objects of this record live only in this constant table
         self.rec, self.field, self.lo, self.hi, self.why = rec, field, lo, hi, why
         self.spec = spec or rec
         self.filler = filler            # byte value a memset may use although its replication is outside [lo,hi]
@@ -137,7 +138,8 @@ class Invariants:
                 self.missing.append("%s.%s" % (t["rec"], t["field"]))
                 continue
             self.entries.append(Entry(rec, t["field"], t["lo"], t["hi"], t.get("why", ""), spec=t["rec"],
-                                      filler=t.get("filler"), init_written=t.get("init_written", False)))
+                                      filler=t.get("filler"), init_written=t.get("init_written", False),
+                                      table=t.get("table")))
         self.by_key = {(e.rec, e.field): e for e in self.entries}
 
     def install(self):
@@ -216,7 +218,20 @@ class Invariants:
                     for a in ev.get("c", []):
                         self._escape(run, rule, f, i, a)
         for e in self.entries:
-            if not (e.lo <= 0 <= e.hi) and not e.init_written:
+            if e.table:
+                rng = self.ctx.global_column_range(e.table, e.field)
+                key = "%s:%s:table:%s" % (rule, e.key, e.table)
+                if rng is None:
+                    run.violation(rule, key, "cannot read column %s of the constant table %s" % (e.field, e.table), None)
+                elif e.lo <= rng[0] and rng[1] <= e.hi:
+                    run.holds(rule, key, "column %s of the constant table %s[] has values %s, inside [%s, %s]"
+                              % (e.field, e.table, rng, e.lo, e.hi), None)
+                else:
+                    run.violation(rule, key, "column %s of the table %s[] has values %s, outside the range [%s, %s] its readers "
+                                  "rely on (%s)" % (e.field, e.table, rng, e.lo, e.hi, e.why), None,
+                                  witness={"table": e.table, "column": e.field, "values": list(rng)})
+        for e in self.entries:
+            if not (e.lo <= 0 <= e.hi) and not e.init_written and not e.table:
                 run.violation(rule, "%s:%s:zero-init" % (rule, e.key), "declared range [%s, %s] of %s excludes 0 but objects start "
                               "zero-filled" % (e.lo, e.hi, e.key), None)
         return n_w
